@@ -1886,6 +1886,13 @@ where
     // to be attached towards the end of long reads
     const LONG_READS_TLV_RESERVE_SIZE: usize = 24;
 
+    // Extra space kept free for the structural TLVs that are written between the
+    // reported items *without* a chunk-and-retry: the end of the attribute reports array (1),
+    // the start (2) and the end (1) of the event reports array. Without it, an item that
+    // fills the space left in the message exactly makes these writes fail with `NoSpace`
+    // and the whole interaction fail, instead of the data being chunked.
+    const LONG_READS_STRUCT_RESERVE_SIZE: usize = 4;
+
     /// Create a new `ReportDataResponder`.
     const fn new(
         req: &'a ReportDataReq<'a>,
@@ -2003,6 +2010,8 @@ where
                 }
             }
 
+            // Structural write: takes its byte from the structural reserve
+            wb.expand(1)?;
             wb.end_container()?;
         }
 
@@ -2021,6 +2030,8 @@ where
         let accessor = self.invoker.exchange().accessor(&metadata)?;
 
         if let Some(event_reqs) = self.req.event_requests()? {
+            // Structural write: takes its bytes from the structural reserve
+            wb.expand(2)?;
             wb.start_array(&TLVTag::Context(ReportDataRespTag::EventReports as _))?;
 
             // Validate concrete event paths against node metadata
@@ -2107,6 +2118,8 @@ where
                 }
             }
 
+            // Structural write: takes its byte from the structural reserve
+            wb.expand(1)?;
             wb.end_container()?;
         }
 
@@ -2258,7 +2271,7 @@ where
     /// Start a reply by initializing the `WriteBuf` and writing the initial TLVs.
     fn start_reply(&self, wb: &mut WriteBuf<'_>) -> Result<(), Error> {
         wb.reset();
-        wb.shrink(Self::LONG_READS_TLV_RESERVE_SIZE)?;
+        wb.shrink(Self::LONG_READS_TLV_RESERVE_SIZE + Self::LONG_READS_STRUCT_RESERVE_SIZE)?;
 
         wb.start_struct(&TLVTag::Anonymous)?;
 
